@@ -331,7 +331,7 @@ func (ref *Node) DoChoose(sel *node.Selection, choice *meta.Choice) (*meta.Choic
 	for _, caseId := range choice.CaseIdents() {
 		cs := choice.Cases()[caseId] // by iterating thru case ids and not cases we get a predictable order
 		for _, ddef := range cs.DataDefinitions() {
-			if ref.exists(ddef) {
+			if ref.exists(sel, ddef) {
 				return cs, nil
 			}
 		}
@@ -339,29 +339,29 @@ func (ref *Node) DoChoose(sel *node.Selection, choice *meta.Choice) (*meta.Choic
 	return nil, nil
 }
 
-func (ref *Node) exists(m meta.Definition) bool {
+func (ref *Node) exists(sel *node.Selection, m meta.Definition) bool {
 	// we make requests and go thru node.Node API so that custom hooks
 	// are called
 	if meta.IsList(m) || meta.IsContainer(m) {
-		r := node.ChildRequest{Meta: m.(meta.HasDataDefinitions)}
+		r := node.ChildRequest{Request: node.Request{Selection: sel}, Meta: m.(meta.HasDataDefinitions)}
 		found, cerr := ref.Child(r)
 		if found != nil && cerr == nil {
 			return true
 		}
 	} else if meta.IsChoice(m) {
-		cs, cerr := ref.Choose(nil, m.(*meta.Choice))
+		cs, cerr := ref.Choose(sel, m.(*meta.Choice))
 		if cs != nil && cerr == nil {
 			// getting a case def might be the default case and not evidence
 			// data actually exists so we need to recurse into the case defs
 			for _, ddef := range cs.DataDefinitions() {
-				if ref.exists(ddef) {
+				if ref.exists(sel, ddef) {
 					return true
 				}
 			}
 			return true
 		}
 	} else {
-		r := node.FieldRequest{Meta: m.(meta.Leafable)}
+		r := node.FieldRequest{Request: node.Request{Selection: sel}, Meta: m.(meta.Leafable)}
 		var hnd node.ValueHandle
 		ferr := ref.Field(r, &hnd)
 		if hnd.Val != nil && ferr == nil {
